@@ -213,33 +213,35 @@ def repair_ternary(code, src=""):
 
 
 def repair_ternary_tail(code, src=""):
-    """the same root cause with nothing after the abandoned item (`x = 1 ? 2, 3 ?`): the item `3 ?` emitted its condition and
-    its `jne` and pushed the jne's index before it failed; the closing action then patches that jne (to `jne 1`, over the default
-    `push.str ""`) instead of the previous arm's `jmp`, which stays `jmp 0`.  Signature: `jmp 0 ; <self-contained code> ; jne 1 ;
-    push.str ""`.  Shape-level repair: the arm's jmp lands behind the default push, the abandoned condition and its jne go."""
+    """the same root cause with the abandoned item at the END of the multi-way ternary (`x = 1 ? 2, 3 ?`, `g = c ? a, 1 ? 's`):
+    the item emitted its condition and its `jne` (and perhaps the beginning of its value) and pushed the jne's index before it
+    failed; the closing action then patches that jne to the end of the ternary, OVER the default `push.str ""` — in a complete
+    ternary every jne lands on the next item or on the default, never behind it — and, when the offsets ran out, leaves the
+    previous arm's jmp as `jmp 0`.  Signature: a `jne` whose target is the instruction right behind a `push.str ""`, the code in
+    between being self-contained.  Shape-level repair: that jne lands ON the default push; a `jmp 0` of the previous arm right
+    before the abandoned condition lands behind the default."""
     n = [0]
+    ctl = ("halt", "ret", "jmp", "je", "jne", "je.dup", "block.push", "block.pop", "fstr.block.push", "fstr.block.pop")
 
     def f(c):
-        for e, op in enumerate(c):
-            if not (op[1] == "push.str" and op[2] == "s0" and e >= 2):
+        for q, op in enumerate(c):
+            if not (op[1] == "jne" and op[2] == "i"):
                 continue
-            j = c[e - 1]
-            if not (j[1] == "jne" and j[2] == "i" and int(j[3]) == 1):
+            k = int(op[3])
+            t = q + k + 1                      # target
+            if k < 1 or t > len(c):
                 continue
-            p = next((q for q in range(e - 2, -1, -1) if c[q][1] == "jmp" and c[q][2] == "i" and int(c[q][3]) == 0), None)
-            if p is None:
+            d = c[t - 1]
+            if not (d[1] == "push.str" and d[2] == "s0"):
                 continue
-            ok = True
-            for q in range(p + 1, e - 1):
-                o = c[q]
-                if o[1] in ("halt", "ret", "jmp", "je", "jne", "je.dup", "block.push", "block.pop"):
-                    ok = False
-            if not ok:
+            if any(c[x][1] in ctl for x in range(q + 1, t - 1)):
                 continue
-            c[p][3] = e - p
-            for q in range(p + 1, e):
-                c[q][0:4] = [74, "nop", "nil", 0]
+            op[3] = k - 1
             n[0] += 1
+            # the previous arm's unpatched jmp, with only the abandoned condition between it and this jne
+            p = next((x for x in range(q - 1, -1, -1) if c[x][1] in ctl), None)
+            if p is not None and c[p][1] == "jmp" and c[p][2] == "i" and int(c[p][3]) == 0:
+                c[p][3] = t - p - 1
         return c
     return map_bodies(code, f), n[0]
 
